@@ -13,7 +13,7 @@ RULE = ('one run = up to 4 live models (actors): model 0 from a sample / synthes
         'non-trivial = at least one copy was made; distinct = distinct (initial state, effective step trace) signatures; interleavings = distinct projected actor/op sequences.')
 ASSUMPTIONS = ['edits are NifFile-level API calls (no direct deletion of a geometry-data block through the header, which dangles a cache inside the same model)',
                'self-assignment is not issued', 'an observation that is not stable under a second save is unusable and attributed to C02 (counted in a probe)']
-EXPECTED_PROBES = ['independence_checked', 'survivor_used_after_destruction', 'assigned_over_loaded_model']
+EXPECTED_PROBES = ['independence_checked', 'survivor_used_after_destruction', 'assigned_over_loaded_model', 'initial_state_with_unknown_blocks', 'edit_through_shape_object']
 
 
 def gen_plan(seed, i, tier):
@@ -23,6 +23,8 @@ def gen_plan(seed, i, tier):
     ver = None
     if r < 55:
         init = {'sample': rng.choice(names)}
+        if 'OB' not in init['sample'] and rng.chance(0.2):
+            init['relabel'] = [rng.below(1000) for _ in range(rng.range(1, 3))]   # a model with unknown block types
     elif r < 75:
         ver = rng.choice(['OB', 'FO3', 'SK', 'SSE', 'FO4', 'FO76'])
         init = {'settle': rng.chance(0.5), 'builder': {'version': ver, 'salt': rng.below(1 << 30), 'nodes': rng.below(3),
